@@ -271,6 +271,8 @@ def features(f):
                 out.add("repeat-increment-while")
         if s[0] == "skip":
             out.add("skip")
+        if s[0] == "case" and "case_selector" in f.params + [n for n, _ in f.locals]:
+            out.add("case-selector-name")
         if s[0] in ("for",) and s[6] is not None and any(x[0] == "skip" for x in walk(s[7])):
             out.add("skip-under-until")
     return out
@@ -422,6 +424,11 @@ def fixed_functions():
                                                         ("for", "i", ("i", 1), ("i", 6), None, None, ("b", "ge", ("a", "i"), a),
                                                          [("assign", "r", ("b", "plus", r, ("i", 1)))]),
                                                         ("return", r)]))
+    # a variable called like the temporary the translation of CASE introduces
+    fs.append(Func("f_caseselector", ["case_selector"], [("r", None)],
+                   [("assign", "r", ("i", 0)),
+                    ("case", ("b", "plus", ("a", "case_selector"), ("i", 1)), [([1, 2, 3, 4, 5, 7], ("assign", "r", ("a", "case_selector")))], ("assign", "r", ("u", "neg", ("a", "case_selector")))),
+                    ("return", ("b", "plus", r, ("a", "case_selector")))]))
     # SKIP in the body of a loop with an UNTIL control: EXPRESS evaluates UNTIL after the SKIP (13.9.3 / 13.11)
     fs.append(Func("f_skipuntil", ["x"], [("r", None)], [("assign", "r", ("i", 0)),
                                                           ("for", "i", ("i", 1), ("i", 5), None, None, ("b", "ge", ("a", "i"), a),
